@@ -436,7 +436,7 @@ pub fn run(tier: &str, seed: u64) -> i32 {
         "C13",
         &states,
         200,
-        Duration::from_secs(if thorough { 1200 } else { 50 }),
+        Duration::from_secs(if thorough { 1200 } else { 150 }),
         Duration::from_secs(10),
         "C13",
     );
